@@ -587,44 +587,47 @@ Lemma same_val_sym : forall a ea b eb, same_val a ea b eb -> same_val b eb a ea.
 Proof. unfold same_val. intros. rewrite (Z.min_comm eb ea). symmetry. assumption. Qed.
 
 (* ------------------------------------------------------------------ the fixed layout: value, rounding error, no "-0" *)
-Theorem fixed_layout_value : forall m e sign prec, 1 <= m < 10 ^ 17 -> 0 <= prec ->
-  exists N E,
-    parse_number (to_chars_fixed m e sign prec) = Some (NVdec (sign && negb (N =? 0)) N E) /\ 0 <= N /\
-    (0 <= e \/ - e <= prec -> (dval N E == dval m e)%Q) /\
-    (e < 0 -> prec < - e -> (dval N E == dval (round_half_even m (10 ^ (- e - prec))) (- prec))%Q) /\
-    (Qabs (dval N E - dval m e) <= (1 # 2) * (10 # 1) ^ (- prec))%Q.
+Lemma parts_N_zero : forall p, parts_ok p -> 0 <= parts_N p /\ ((parts_N p =? 0) = (p_int p =? 0) && (p_dec p =? 0)).
 Proof.
-  intros m e sign prec Hm Hp. unfold to_chars_fixed, fixed_parts.
+  intros p (Hi & Hd & Ht & Hlz). unfold parts_N. destruct (Z.eqb_spec (p_dec p) 0) as [E0 | N0].
+  - pose proof (pow10_pos (p_tz p) Ht). split; [nia|]. rewrite andb_true_r.
+    destruct (Z.eqb_spec (p_int p) 0) as [-> | Ni]; [reflexivity|]. apply Z.eqb_neq. nia.
+  - rewrite andb_false_r.
+    pose proof (pow10_pos (p_tz p) Ht). pose proof (pow10_pos (p_lz p + Z.of_nat (declen (p_dec p))) ltac:(lia)).
+    assert (0 <= p_int p * 10 ^ p_tz p * 10 ^ (p_lz p + Z.of_nat (declen (p_dec p)))) by nia.
+    split; [lia|]. apply Z.eqb_neq. lia.
+Qed.
+
+Lemma sign_flag : forall (sign : bool) p, parts_ok p ->
+  sign && (negb (p_int p =? 0) || negb (p_dec p =? 0)) = sign && negb (parts_N p =? 0).
+Proof.
+  intros sign p Hok. destruct (parts_N_zero p Hok) as [_ ->]. destruct (p_int p =? 0), (p_dec p =? 0), sign; reflexivity.
+Qed.
+
+(* what the parts computed by to_chars_fixed denote *)
+Lemma fixed_parts_spec : forall m e prec, 1 <= m < 10 ^ 17 -> 0 <= prec ->
+  let p := fixed_parts m e prec in
+  parts_ok p /\
+  (0 <= e \/ - e <= prec -> (dval (parts_N p) (parts_E p) == dval m e)%Q) /\
+  (e < 0 -> prec < - e -> (dval (parts_N p) (parts_E p) == dval (round_half_even m (10 ^ (- e - prec))) (- prec))%Q) /\
+  (Qabs (dval (parts_N p) (parts_E p) - dval m e) <= (1 # 2) * (10 # 1) ^ (- prec))%Q.
+Proof.
+  intros m e prec Hm Hp. unfold fixed_parts.
   assert (forall o' e' l', 0 <= o' < 10 ^ 17 -> (o' = 0 \/ l' = Z.of_nat (declen o')) ->
-          exists N E, parse_number (emit_parts sign (split_parts o' e' l')) = Some (NVdec (sign && negb (N =? 0)) N E) /\ 0 <= N /\
-                      (dval N E == dval o' e')%Q) as Hemit.
-  { intros o' e' l' Ho Hl.
-    destruct (split_parts_spec o' e' l' Ho Hl) as (Hok & Hsv & Hz & Hnz).
-    set (p := split_parts o' e' l') in *.
-    exists (parts_N p), (parts_E p). rewrite parse_emit_parts by assumption.
-    destruct Hok as (Hi & Hd & Ht & Hlz).
-    assert (0 <= parts_N p /\ ((parts_N p =? 0) = (p_int p =? 0) && (p_dec p =? 0))) as [HN0 HNz].
-    { unfold parts_N. destruct (Z.eqb_spec (p_dec p) 0) as [E0 | N0].
-      - pose proof (pow10_pos (p_tz p) Ht). split; [nia|]. rewrite andb_true_r.
-        destruct (Z.eqb_spec (p_int p) 0) as [-> | Ni]; [reflexivity|]. apply Z.eqb_neq. nia.
-      - rewrite andb_false_r.
-        pose proof (pow10_pos (p_tz p) Ht). pose proof (pow10_pos (p_lz p + Z.of_nat (declen (p_dec p))) ltac:(lia)).
-        assert (0 <= p_int p * 10 ^ p_tz p * 10 ^ (p_lz p + Z.of_nat (declen (p_dec p)))) by nia.
-        split; [lia|]. apply Z.eqb_neq. lia. }
-    split; [|split; [exact HN0 | apply same_val_dval; exact Hsv]].
-    do 2 f_equal. rewrite HNz. destruct (p_int p =? 0), (p_dec p =? 0); reflexivity. }
+          parts_ok (split_parts o' e' l') /\ (dval (parts_N (split_parts o' e' l')) (parts_E (split_parts o' e' l')) == dval o' e')%Q) as Hemit.
+  { intros o' e' l' Ho Hl. destruct (split_parts_spec o' e' l' Ho Hl) as (Hok & Hsv & _). split; [exact Hok | apply same_val_dval; exact Hsv]. }
   assert (forall x y : Q, (x == y)%Q -> (Qabs (x - y) <= (1 # 2) * (10 # 1) ^ (- prec))%Q) as Hzero.
   { intros x y Exy. setoid_replace (x - y)%Q with 0%Q by (rewrite Exy; ring). cbn [Qabs Z.abs].
     apply Qmult_le_0_compat; [discriminate | apply Qlt_le_weak, ten_pow_pos]. }
   destruct (Z.leb_spec 0 e) as [He | He].
-  - destruct (Hemit m e (decimalLength17 m) ltac:(lia)) as (N & E & P1 & P2 & P3).
+  - destruct (Hemit m e (decimalLength17 m) ltac:(lia)) as (P1 & P3).
     { right. apply decimalLength17_declen. lia. }
-    exists N, E. split; [exact P1|]. split; [exact P2|]. split; [intros _; exact P3|]. split; [lia|]. apply Hzero. exact P3.
+    cbn zeta. split; [exact P1|]. split; [intros _; exact P3|]. split; [lia|]. apply Hzero. exact P3.
   - pose proof (adapt_spec m e prec Hm He Hp) as HA.
     destruct (adapt m e (decimalLength17 m) prec) as [[o' e'] l'].
     destruct HA as (A1 & A2 & A3 & A4 & A5 & A6 & A7 & A8).
-    destruct (Hemit o' e' l' A4 A5) as (N & E & P1 & P2 & P3).
-    exists N, E. split; [exact P1|]. split; [exact P2|].
+    destruct (Hemit o' e' l' A4 A5) as (P1 & P3).
+    cbn zeta. split; [exact P1|].
     destruct (Z.le_gt_cases (- e) prec) as [G | G].
     + destruct (A1 G) as [-> ->]. split; [intros _; exact P3|]. split; [lia|]. apply Hzero. exact P3.
     + specialize (A2 G). specialize (A6 G).
@@ -637,6 +640,19 @@ Proof.
       split; [lia|]. split; [intros _ _; rewrite P3; exact EQ|].
       rewrite P3, EQ. apply half_unit_bound; [lia|].
       apply round_half_even_bound. apply pow10_pos. lia.
+Qed.
+
+Theorem fixed_layout_value : forall m e sign prec, 1 <= m < 10 ^ 17 -> 0 <= prec ->
+  exists N E,
+    parse_number (to_chars_fixed m e sign prec) = Some (NVdec (sign && negb (N =? 0)) N E) /\ 0 <= N /\
+    (0 <= e \/ - e <= prec -> (dval N E == dval m e)%Q) /\
+    (e < 0 -> prec < - e -> (dval N E == dval (round_half_even m (10 ^ (- e - prec))) (- prec))%Q) /\
+    (Qabs (dval N E - dval m e) <= (1 # 2) * (10 # 1) ^ (- prec))%Q.
+Proof.
+  intros m e sign prec Hm Hp. destruct (fixed_parts_spec m e prec Hm Hp) as (Hok & V1 & V2 & V3).
+  exists (parts_N (fixed_parts m e prec)), (parts_E (fixed_parts m e prec)).
+  unfold to_chars_fixed. rewrite parse_emit_parts by assumption. rewrite sign_flag by assumption.
+  split; [reflexivity|]. split; [apply parts_N_zero; assumption|]. split; [exact V1|]. split; [exact V2 | exact V3].
 Qed.
 
 (* ------------------------------------------------------------------ the number language: every emitted string is a number token *)
